@@ -104,6 +104,34 @@ def specLoop (env : Env) (i : Nat) : Reg → LoopRet
     | .ok => let t := specLoop env i rest; ⟨(c, r.st) :: t.reg, r.ev ++ t.ev, t.res⟩
     | x => ⟨(c, r.st) :: rest, r.ev, x⟩
 
+/-- a logging call told with the specification's loop -/
+def specLogW (env : Env) (i : Nat) (w : World) : WRet :=
+  match w.minLevel with
+  | none => ⟨w, [], .ok⟩
+  | some m =>
+    if env.level i < m then ⟨w, [], .ok⟩
+    else
+      let r := specLoop env i w.reg
+      ⟨{ w with reg := r.reg }, r.ev, r.res⟩
+
+/-- one operation of a history at the level of the specification: a logging call is `specLoop` (stage-by-stage
+    outcomes, no locks, no markers, no try/except); `complete` / `remove` are the worker, task and registry
+    functions the theorems `worker_never_dies`, `task_exception_retrieved`, `remove_*` characterise -/
+def specStepW (env : Env) (w : World) : Op → WRet
+  | .log i => specLogW env i w
+  | .complete => completeW env w
+  | .remove hid k => removeW env hid k w
+  | .removeAll k => removeAllW env k w
+
+/-- a whole history at the level of the specification (the caller goes on after an exception) -/
+def specRunW (env : Env) : List Op → World → World × List Event × List Res
+  | [], w => (w, [], [])
+  | op :: ops, w =>
+    let r := specStepW env w op
+    match r.res with
+    | .blocked => (r.w, r.ev, [.blocked])
+    | x => let t := specRunW env ops r.w; (t.1, r.ev ++ t.2.1, x :: t.2.2)
+
 /-- the stderr reports the worker owes for one queue item: a failing `get` is reported without record,
     a failing `write`/`flush` with the record -/
 def workerReports (env : Env) (c : Cfg) : QItem → List Event
